@@ -945,6 +945,9 @@ func (s *AbsfsNFS) Export(mountPath string, port int) error {
 		ReadOnly: s.policy.Load().ReadOnly,
 		Port:     port,
 		Hostname: "localhost",
+		// ONC RPC over TCP is record-marked (RFC 1831 section 10): without this
+		// no standard NFS client can talk to an exported server.
+		UseRecordMarking: true,
 	})
 	if err != nil {
 		return err
